@@ -307,7 +307,7 @@ func (ix *LiteIndex) OrderBy(exprs []string) (string, bool) {
 
 func (t *LiteTable) Index(name string) *LiteIndex {
 	for i := range t.Indexes {
-		if strings.EqualFold(t.Indexes[i].Name, name) {
+		if SameID(t.Indexes[i].Name, name) {
 			return &t.Indexes[i]
 		}
 	}
@@ -320,7 +320,7 @@ func RowidKeyword(cols []string) string {
 	for _, kw := range []string{"rowid", "_rowid_", "oid"} {
 		shadowed := false
 		for _, c := range cols {
-			if strings.EqualFold(c, kw) {
+			if SameID(c, kw) {
 				shadowed = true
 			}
 		}
@@ -447,3 +447,18 @@ func readHeader(path string) []byte {
 	}
 	return b[:100]
 }
+
+// FoldID folds an identifier the way SQLite compares identifiers: ASCII
+// letters only ("é" and "É", "k" and the Kelvin sign are different names).
+func FoldID(s string) string {
+	b := []byte(s)
+	for i, c := range b {
+		if c >= 'A' && c <= 'Z' {
+			b[i] = c + 'a' - 'A'
+		}
+	}
+	return string(b)
+}
+
+// SameID: two identifiers name the same thing for SQLite
+func SameID(a, b string) bool { return FoldID(a) == FoldID(b) }
